@@ -503,3 +503,66 @@ def stream(run, real, cases, label, prop_note):
                           "model": model[first] if first < len(model) else None,
                           "real": realc[first] if first < len(realc) else None})
     return direct, diffs
+
+
+# ---------------------------------------------------------------------------------- the real --replay path, end to end
+def e2e_replay(real, program, lang, iterations, rseed, transformations=1):
+    """dumps `program` with the tool's own dump_program, then runs hephaestus.gen_program in replay mode
+    `iterations` times in this process with the REAL transformations (TypeErasure scheduled `transformations` times,
+    then TypeOverwriting), --keep-all, dry run, the same RNG seed before every iteration.  Returns per iteration the
+    text of the initial program the tool saved, the texts of the correct / incorrect programs, and the text of the
+    in-memory original translated BEFORE the dump."""
+    H, PM = real.H, real.PM
+    from src import utils
+    real.k += 1
+    cdir = os.path.join(real.base, "e%d" % real.k)
+    td = os.path.join(cdir, "bugs", "s")
+    os.makedirs(td)
+    a = H.cli_args
+    a.bugs, a.name, a.test_directory = os.path.join(cdir, "bugs"), "s", td
+    a.language = lang
+    a.debug = a.log = a.examine = a.print_stacktrace = a.rerun = False
+    a.dry_run, a.keep_all, a.only_correctness_preserving_transformations = True, True, False
+    a.transformation_types = ["TypeErasure"]
+    a.transformations, a.transformation_schedule = transformations, None
+    PM.ProgramProcessor.CP_TRANSFORMATIONS = real.orig["cp"]
+    PM.ProgramProcessor.NCP_TRANSFORMATIONS = real.orig["ncp"]
+    PM.Generator = real.orig["gen"]
+    H.ProgramProcessor = real.Recording
+    tr = H.TRANSLATORS[lang]("src." + PKGS[0], a.options["Translator"])
+    original_text = utils.translate_program(tr, program)
+    fn, fni = tr.get_filename(), tr.get_incorrect_filename()
+    a.replay = os.path.join(cdir, "stored.bin")
+    utils.dump_program(a.replay, program)
+    real.st = st = {"script": [], "calls": 0, "steps": 0, "cap": 0, "sched_len": transformations, "genBase": 0, "pid": 0,
+                    "procs": [], "starts": [], "counter_stuck": []}
+    out = {"original": original_text, "iterations": [], "nonterminating": None}
+    old = signal.signal(signal.SIGALRM, _alarm)
+    try:
+        for it in range(iterations):
+            pid = 1 + it
+            st["steps"] = 0
+            st["cap"] = CAP_FACTOR * transformations + CAP_SLACK
+            utils.random.r.seed(rseed)
+            signal.setitimer(signal.ITIMER_REAL, 60)
+            try:
+                res = H.gen_program(pid, os.path.join(cdir, "batch%d" % pid, "src"), PKGS)
+            except NoProgress as e:
+                out["nonterminating"] = {"iteration": pid, "message": str(e)}
+                break
+            finally:
+                signal.setitimer(signal.ITIMER_REAL, 0)
+
+            def rd(*parts):
+                p = os.path.join(*parts)
+                return open(p).read() if os.path.exists(p) else None
+            out["iterations"].append({
+                "pid": pid, "failed": bool(res.failed), "error": res.stats.get("error"),
+                "steps": st["steps"], "transformations": list(res.stats["transformations"]),
+                "start": rd(td, "generator", "iter_%d" % pid, fn),
+                "correct": rd(cdir, "batch%d" % pid, "src", PKGS[0], fn),
+                "incorrect": rd(cdir, "batch%d" % pid, "src", PKGS[1], fn),
+                "start_obj_reused": any(st["starts"][-1]["obj"] is s["obj"] for s in st["starts"][:-1]) if st["starts"] else None})
+    finally:
+        signal.signal(signal.SIGALRM, old)
+    return out
